@@ -508,15 +508,19 @@ def plan(tier, seed):
 
 
 def guarded(case, acc):
+    # (a call with timeout=0 has nothing to wait for: ten seconds are ample, and a dozen such cases that all hang must
+    # not use up the shard's own time limit - that would turn the refuting observation into "inconclusive")
+    limit = 10 if case.get('t0') else 60
     try:
-        with watchdog(60):
+        with watchdog(limit):
             if case.get('t0'):
                 timeout0_case(case, acc)
             else:
                 one(case, acc)
     except CaseTimeout as e:
-        second_attempt(acc, case, lambda: (timeout0_case if case.get('t0') else one)(case, acc), 60,
-                       'history did not finish within 60 s (every call in it has a timeout of %.1f s)' % T)
+        second_attempt(acc, case, lambda: (timeout0_case if case.get('t0') else one)(case, acc), limit,
+                       'history did not finish within %d s (every call in it has a timeout of %s s)' % (
+                           limit, '0' if case.get('t0') else '%.1f' % T))
 
 
 def is_model_case(case):
@@ -537,6 +541,8 @@ def run_shard(spec, acc):
                 for readable in (False, True):
                     for pending in (False, True):
                         guarded({'t0': True, 'enc': enc, 'op': op, 'readable': readable, 'pending': pending}, acc)
+                        if acc.too_many():
+                            return
         return
     rng = G.rng_for(spec['seed'], spec['shard'], 14)
     for i in range(spec['n']):
